@@ -904,8 +904,76 @@ func beatTickWinScenario(name string, proto int, kind string) Scenario {
 	}}
 }
 
+// (14) C08: a candidate that follows the protocol sends its probe as soon as its connection is open. The transport's reader
+// goroutine runs from the transport's construction on, the packet listener that answers the probe is attached by MaybeUpgrade
+// later: the goroutine serving the candidate's request is held in between (upgrade.gated). The probe must not be lost - the
+// candidate must be answered and must be able to complete the switch without waiting for the upgrade timeout.
+func probeEarlyScenario(name, kind string, pendingPoll bool) Scenario {
+	return Scenario{Name: name, Run: func(t *testing.T, rec *Rec, g *Gates) {
+		cfg := EngCfg{PI: 25 * time.Second, PT: 20 * time.Second, UT: 5 * time.Second, WT: true}
+		d := newDirect(t, rec, g, cfg, "polling")
+		if d.sid == "" {
+			d.w.Finish()
+			return
+		}
+		w, sc, c := d.w, d.sc, d.c
+		if pendingPoll {
+			sc.doPoll(c)
+			sc.settle()
+		}
+		g.Park("upgrade.gated", true)
+		var a *WSClient
+		if kind == "webtransport" {
+			a = w.DialWT(c.S, nil)
+		} else {
+			a = w.DialWS(c.S, "", nil, nil)
+		}
+		sc.settle()
+		held := g.Parked("upgrade.gated") > 0
+		g.Park("upgrade.gated", false)
+		if !a.closed {
+			a.SendPkt(Pkt{Type: "ping", Data: []byte("probe")}) // at once, as engine.io-client does
+			sc.settle()
+		}
+		g.ReleaseAll()
+		sc.settle()
+		g.SleepArmed(150 * time.Millisecond) // the check interval releases a pending poll
+		sc.settle()
+		if c.poll != nil && c.poll.Status != 0 {
+			c.poll = nil
+		}
+		probed := false
+		w.rec.mu.Lock()
+		for _, e := range w.rec.events {
+			if e["e"] == "cli.ws.recv" {
+				if pk, ok := e["pk"].(map[string]any); ok && pk["ty"] == "pong" && e["cid"] == a.ID {
+					probed = true
+				}
+			}
+		}
+		w.rec.mu.Unlock()
+		if probed && !a.closed && c.poll == nil {
+			a.SendPkt(Pkt{Type: "upgrade"})
+			sc.settle()
+			if so := w.Sock(d.sid); so != nil && so.Upgraded() {
+				c.Kind, c.ws = "websocket", a
+				a.OnPkt = func(wc *WSClient, p Pkt) { sc.processPkts(c, []Pkt{p}, wc) }
+			}
+		}
+		rec.Log("probeearly", "held", held, "probed", probed, "kind", kind)
+		w.Expect(d.sid, "upgraded")
+		w.Expect(d.sid, "open")
+		d.finish()
+	}}
+}
+
 func directFamily() []Scenario {
 	var out []Scenario
+	for _, kind := range []string{"websocket", "webtransport"} {
+		for _, pp := range []bool{false, true} {
+			out = append(out, probeEarlyScenario(fmt.Sprintf("probeearly_%s_pp%v", kind, pp), kind, pp))
+		}
+	}
 	for _, proto := range []int{3, 4} {
 		for _, kind := range []string{"polling", "websocket"} {
 			out = append(out, beatTickWinScenario(fmt.Sprintf("beattick_%d_%s", proto, kind), proto, kind))
